@@ -87,8 +87,6 @@ static int loop_start(m_ctx_t *c, int max_events) {
 }
 
 static uint8_t loop_stop(m_ctx_t *c) {
-    c->state = M_CTX_IDLE;
-    
     /* Publish loop stopped system message */
     tell_system_pubsub_msg(NULL, c, NULL, M_PS_CTX_STOPPED);
     
@@ -114,6 +112,12 @@ static uint8_t loop_stop(m_ctx_t *c) {
     c->stats.idle_time = 0;
 
     int ret = c->quit_code;
+
+    /*
+     * Only now the ctx is idle again: the callbacks run by the flush above
+     * are still part of the loop, ie: they cannot release the ctx under our feet.
+     */
+    c->state = M_CTX_IDLE;
     
     /*
      * ctx cannot be deregistered while looping,
